@@ -13,6 +13,7 @@ import (
 
 	"istio.io/istio/pilot/pkg/model"
 	"istio.io/istio/pilot/pkg/xds"
+	"istio.io/istio/pkg/config/host"
 	"verifharness/internal/wire"
 )
 
@@ -87,6 +88,41 @@ func (g *reqGate) openAll() {
 	xds.VerifE2ESetReqGate(nil)
 	g.open(1)
 	g.open(2)
+}
+
+// awaitStateVisible polls the REAL service registry until it shows the ServiceEntry changes of the
+// given ops (config-store kinds are visible as soon as the store call returns): the events are
+// parked, so the push counters say nothing. Bounded; w is the world after the ops.
+func awaitStateVisible(st *site, w *world, ops []Op) {
+	sd := st.s.Env().ServiceDiscovery
+	visible := func() bool {
+		for _, o := range ops {
+			if o.K != "se" && !(o.K == "del" && o.Kind == "se") {
+				continue
+			}
+			for _, hn := range allHosts {
+				// the hostname must resolve iff some ServiceEntry of the world still defines it
+				defined := false
+				for _, k := range sortedKeys(w.Cfg) {
+					if c := w.Cfg[k]; c.K == "se" && contains(c.Hosts, hn) {
+						defined = true
+					}
+				}
+				if hn == memHost {
+					continue
+				}
+				if (sd.GetService(host.Name(hn)) != nil) != defined {
+					return false
+				}
+			}
+		}
+		return true
+	}
+	deadline := time.Now().Add(3 * time.Second)
+	for !visible() && time.Now().Before(deadline) {
+		time.Sleep(pollEvery)
+	}
+	time.Sleep(calmTime)
 }
 
 func opNames(w *world, o Op) []string {
@@ -269,9 +305,11 @@ func runC03(h *History, stt *stats) result {
 		}
 		if len(d) > 0 {
 			clause := "delta-ne-sotw"
-			if h.Lag != nil && step == h.Lag.Step+1 {
+			if h.Lag != nil && step > h.Lag.Step {
 				// the scripted race: the events of one change were delivered after a push built from a
-				// context that already contained it
+				// context that already contained it. The damage can be latent (both clients equally
+				// stale until the next full CDS build repairs only the SotW client), so every
+				// difference from the release on belongs to the class.
 				clause = "delta-ne-sotw:events-behind-state"
 			}
 			return &result{Clause: clause, Detail: merge(map[string]any{"after_step": step, "n": len(d), "diff": limitDiffs(d, 6),
@@ -321,7 +359,7 @@ func runC03(h *History, stt *stats) result {
 				return *r
 			}
 			stt.Steps += 2
-			time.Sleep(100 * time.Millisecond)
+			awaitStateVisible(st, w, append(append([]Op{}, ops...), h.Steps[i+1]...))
 			stt.Extra["lag-events-parked"] += gate.count(1)
 			if os.Getenv("E2E_DEBUG") != "" {
 				fmt.Fprintln(os.Stderr, "DEBUG parked", gate.count(1), gate.count(2))
